@@ -297,7 +297,7 @@ func (v *VecDense) ScaleVec(alpha float64, a Vector) {
 	aU, _ := untransposeExtract(a)
 	if v == aU {
 		if v.mat.Inc == 1 {
-			f64.ScalUnitary(alpha, v.mat.Data)
+			f64.ScalUnitary(alpha, v.mat.Data[:n])
 			return
 		}
 		f64.ScalInc(alpha, v.mat.Data, uintptr(n), uintptr(v.mat.Inc))
@@ -310,7 +310,7 @@ func (v *VecDense) ScaleVec(alpha float64, a Vector) {
 		mat := rv.RawVector()
 		v.checkOverlap(mat)
 		if v.mat.Inc == 1 && mat.Inc == 1 {
-			f64.ScalUnitaryTo(v.mat.Data, alpha, mat.Data)
+			f64.ScalUnitaryTo(v.mat.Data, alpha, mat.Data[:n])
 			return
 		}
 		f64.ScalIncTo(v.mat.Data, uintptr(v.mat.Inc),
@@ -379,7 +379,7 @@ func (v *VecDense) AddScaledVec(a Vector, alpha float64, b Vector) {
 	case v == a && v != b: // v <- v + alpha * b
 		if v.mat.Inc == 1 && bmat.Inc == 1 {
 			// Fast path for a common case.
-			f64.AxpyUnitaryTo(v.mat.Data, alpha, bmat.Data, amat.Data)
+			f64.AxpyUnitaryTo(v.mat.Data, alpha, bmat.Data[:ar], amat.Data[:ar])
 		} else {
 			f64.AxpyInc(alpha, bmat.Data, v.mat.Data,
 				uintptr(ar), uintptr(bmat.Inc), uintptr(v.mat.Inc), 0, 0)
@@ -387,7 +387,7 @@ func (v *VecDense) AddScaledVec(a Vector, alpha float64, b Vector) {
 	default: // v <- a + alpha * b or v <- a + alpha * v
 		if v.mat.Inc == 1 && amat.Inc == 1 && bmat.Inc == 1 {
 			// Fast path for a common case.
-			f64.AxpyUnitaryTo(v.mat.Data, alpha, bmat.Data, amat.Data)
+			f64.AxpyUnitaryTo(v.mat.Data, alpha, bmat.Data[:ar], amat.Data[:ar])
 		} else {
 			f64.AxpyIncTo(v.mat.Data, uintptr(v.mat.Inc), 0,
 				alpha, bmat.Data, amat.Data,
@@ -427,7 +427,7 @@ func (v *VecDense) AddVec(a, b Vector) {
 
 			if v.mat.Inc == 1 && amat.Inc == 1 && bmat.Inc == 1 {
 				// Fast path for a common case.
-				f64.AxpyUnitaryTo(v.mat.Data, 1, bmat.Data, amat.Data)
+				f64.AxpyUnitaryTo(v.mat.Data, 1, bmat.Data[:ar], amat.Data[:ar])
 				return
 			}
 			f64.AxpyIncTo(v.mat.Data, uintptr(v.mat.Inc), 0,
@@ -473,7 +473,7 @@ func (v *VecDense) SubVec(a, b Vector) {
 
 			if v.mat.Inc == 1 && amat.Inc == 1 && bmat.Inc == 1 {
 				// Fast path for a common case.
-				f64.AxpyUnitaryTo(v.mat.Data, -1, bmat.Data, amat.Data)
+				f64.AxpyUnitaryTo(v.mat.Data, -1, bmat.Data[:ar], amat.Data[:ar])
 				return
 			}
 			f64.AxpyIncTo(v.mat.Data, uintptr(v.mat.Inc), 0,
@@ -520,7 +520,7 @@ func (v *VecDense) MulElemVec(a, b Vector) {
 
 			if v.mat.Inc == 1 && amat.Inc == 1 && bmat.Inc == 1 {
 				// Fast path for a common case.
-				for i, a := range amat.Data {
+				for i, a := range amat.Data[:ar] {
 					v.mat.Data[i] = a * bmat.Data[i]
 				}
 				return
@@ -572,7 +572,7 @@ func (v *VecDense) DivElemVec(a, b Vector) {
 
 			if v.mat.Inc == 1 && amat.Inc == 1 && bmat.Inc == 1 {
 				// Fast path for a common case.
-				for i, a := range amat.Data {
+				for i, a := range amat.Data[:ar] {
 					v.setVec(i, a/bmat.Data[i])
 				}
 				return
@@ -648,7 +648,7 @@ func (v *VecDense) MulVec(a Matrix, b Vector) {
 
 				if amat.Inc == 1 && bmat.Inc == 1 {
 					// Fast path for a common case.
-					v.setVec(0, f64.DotUnitary(amat.Data, bmat.Data))
+					v.setVec(0, f64.DotUnitary(amat.Data[:c], bmat.Data[:c]))
 					return
 				}
 				v.setVec(0, f64.DotInc(amat.Data, bmat.Data,
